@@ -3,7 +3,7 @@
 # scratch worktree: patch applies, demo exits 0 without / 1 with the change, and the property's own check (through
 # OPTILAND_REPO) reports a VIOLATION.  The test-suite is not re-run here (use verify_seed.sh for that).
 # One line per seed: <id> applies=<0|1> demo=<clean>/<mutant> check=<CAUGHT|MISSED> <violation line>
-IDS=${@:-$(ls /verif/seeded)}
+IDS=${@:-$(ls /verif/seeded | grep -E "^C[0-9]+-[0-9]+$")}
 mkdir -p /tmp/vs
 for id in $IDS; do
   P=${id%-*}; D=/verif/seeded/$id; WT=/tmp/vs/re_$id
